@@ -10,9 +10,13 @@ Tie B streams (implementation runner lib/impl/c19_sample.py):
             data base is converted to model terms and the PROVED checker check_sample (T19b) runs in
             Coq (vm_compute), together with check_flat / check_ind / the renamed expressions;
             the protocol is ALSO evaluated directly in Python (property oracle).
-  full      fully sampled strata: GenerateModel.get_logit() (tree compared with the Gallina builder
-            get_logit inside Coq) and its value through the engine vs models.loglogit on the full
-            choice set, per individual; nested and cross-nested variants vs lognested / logcnl.
+  full      fully sampled strata: GenerateModel.get_logit(), get_nested_logit(), get_cross_nested_logit():
+            the three trees are compared node for node with the Gallina builders (get_logit of
+            Model/Sampling.v, get_nested_logit / get_cross_nested_logit of Model/SamplingMev.v; expr_eqb
+            in Coq, modulo the iteration order of the BelongsTo sets); their values through the engine
+            vs models.loglogit / lognested / logcnl on the full choice set, per individual; the
+            _CNL_ alpha columns and the MEV weights are checked (hypotheses alphas_hold / sample_holds of
+            T19g / T19h); corpus witness of T19g_nest_repeating_an_alternative_refuted (known finding).
   validate  Partition(...) and SamplingContext.check_partition vs partition_accepts /
             check_partition_accepts.
   segsize   generate_segment_size vs the generated Gallina definition.
@@ -54,6 +58,9 @@ TRUSTED = [
     'flattened names; validated on this run by stream segsize',
     'tie B: hand-written model Model/Sampling.v of sample_alternatives / sample_mev_alternatives / process_row / '
     'define_new_variables / GenerateModel.get_logit, tied by streams sample, full, validate',
+    'tie B: hand-written builders Model/SamplingMev.v of GenerateModel.get_nested_logit / get_cross_nested_logit (tree '
+    'comparison in stream full); the full nested / cross-nested models are the C05/C06 builders Model/BuildersChoice.v '
+    '(tied by C05/build)',
     'harness: generators, JSON -> Gallina encoders, the ratio decoder, the Python formula evaluator (floats)',
     'the biogeme engine (cythonbiogeme) is used to evaluate both sides of the full-sampling comparison',
 ]
